@@ -22,20 +22,36 @@ type VEntry struct {
 	HasBB bool
 	Child *VNode
 	Obj   geom.Geom
+	// Alias is the ordinal (depth-first entry order) of the first entry that
+	// holds the same *Bounds pointer, or -1 when this entry is the first holder.
+	Alias int
+	// BBIsObj: the box pointer is the stored object itself.
+	BBIsObj bool
 }
 
 // VerifSnapshot returns a deep read-only copy of the node structure together
 // with the height and size counters.
 func (tree *Rtree) VerifSnapshot() (root *VNode, height, size int) {
+	first := map[*geom.Bounds]int{}
+	ord := 0
 	var walk func(n, parent *node, isRoot bool) *VNode
 	walk = func(n, parent *node, isRoot bool) *VNode {
 		v := &VNode{Level: n.level, Leaf: n.leaf, ParentOK: isRoot || n.parent == parent}
 		for _, e := range n.entries {
-			ve := VEntry{Obj: e.obj}
+			ve := VEntry{Obj: e.obj, Alias: -1}
 			if e.bb != nil {
 				ve.BB = *e.bb
 				ve.HasBB = true
+				if f, ok := first[e.bb]; ok {
+					ve.Alias = f
+				} else {
+					first[e.bb] = ord
+				}
+				if ob, ok := e.obj.(*geom.Bounds); ok && ob == e.bb {
+					ve.BBIsObj = true
+				}
 			}
+			ord++
 			if e.child != nil {
 				ve.Child = walk(e.child, n, false)
 			}
@@ -46,22 +62,50 @@ func (tree *Rtree) VerifSnapshot() (root *VNode, height, size int) {
 	return walk(tree.root, nil, true), tree.height, tree.size
 }
 
-// VerifClone returns a deep copy of the tree that shares only the stored
-// objects with the receiver. Parent pointers are reproduced as they are when
-// they point into the tree; a root parent pointer (which no code path follows)
-// is reproduced as nil / non-nil detached node.
+// VerifClone returns a copy of the tree that shares only the stored objects
+// with the receiver. Every struct is first copied as a whole (so that fields
+// this file does not know about are carried along) and the node / box pointers
+// are then redirected to the copies; two entries that hold the same *Bounds
+// pointer hold one common copy afterwards, and a box pointer that is the
+// stored object itself stays that object. Parent pointers are reproduced as
+// they are when they point into the tree; a parent pointer leading out of the
+// tree (which no code path follows) becomes a detached node.
 func (tree *Rtree) VerifClone() *Rtree {
 	m := map[*node]*node{}
+	bm := map[*geom.Bounds]*geom.Bounds{}
+	objs := map[*geom.Bounds]bool{} // stored objects that are boxes themselves
+	var collect func(n *node)
+	collect = func(n *node) {
+		for _, e := range n.entries {
+			if ob, ok := e.obj.(*geom.Bounds); ok {
+				objs[ob] = true
+			}
+			if e.child != nil {
+				collect(e.child)
+			}
+		}
+	}
+	collect(tree.root)
 	var cp func(n *node) *node
 	cp = func(n *node) *node {
-		c := &node{leaf: n.leaf, level: n.level}
+		c := new(node)
+		*c = *n
 		m[n] = c
 		c.entries = make([]entry, len(n.entries), cap(n.entries))
 		for i, e := range n.entries {
-			ce := entry{obj: e.obj}
+			ce := e
 			if e.bb != nil {
-				b := *e.bb
-				ce.bb = &b
+				if objs[e.bb] {
+					// the box is a stored object (this entry's or, through
+					// aliasing, another one's)
+				} else if b, ok := bm[e.bb]; ok {
+					ce.bb = b
+				} else {
+					b := new(geom.Bounds)
+					*b = *e.bb
+					bm[e.bb] = b
+					ce.bb = b
+				}
 			}
 			if e.child != nil {
 				ce.child = cp(e.child)
@@ -70,7 +114,8 @@ func (tree *Rtree) VerifClone() *Rtree {
 		}
 		return c
 	}
-	t := &Rtree{MinChildren: tree.MinChildren, MaxChildren: tree.MaxChildren, size: tree.size, height: tree.height}
+	t := new(Rtree)
+	*t = *tree
 	t.root = cp(tree.root)
 	var fix func(n *node)
 	fix = func(n *node) {
